@@ -100,7 +100,7 @@ func c09Symbolize(c *Ctx) {
 	for _, m := range []string{"local:demangle=simple", "force:demangle=all", "demangle=full,templates", "demangle=gnu", "none:demangle=gnu", "demangle=gnu:none", "::", "local::force", "remote:remote:local"} {
 		c09SymCase(c, "symmode-pool", m)
 	}
-	for k := 0; k < c.Budget(300, 10000); k++ {
+	for k := 0; k < c.Budget(200, 10000); k++ {
 		c09SymCase(c, "symmode-grammar", c09SymMode(r))
 	}
 	cmds := []string{"-top", "-traces", "-raw", "-tree", "-dot", "-tags", "-proto", ""}
